@@ -155,6 +155,10 @@ def render(model, outdir):
         L.append(",\n".join(params))
         L.append(");")
     L.append(f"familyName = {q(model['names'].get('familyName', fam))};")
+    if model.get("fea_features"):
+        L.append("features = (")
+        L.append(",\n".join("{\ncode = %s;\ntag = %s;\n}" % (q(code), q(t)) for t, code in model["fea_features"]))
+        L.append(");")
     # masters
     metric_keys = [("ascender", "ascender"), ("cap height", "capHeight"), ("x-height", "xHeight"), ("baseline", None), ("descender", "descender")]
     L.append("fontMaster = (")
